@@ -204,12 +204,13 @@ class Problem:
             fd = [0]
         if isinstance(fd, dict):
             for b, m in fd.items():
-                b = int(b)
+                b = int(b) % self.nb  # a negative block index counts from the end
                 m = np.array(m, dtype=bool)
                 s = slice(self.off[b], self.off[b + 1])
                 elim[s, s] = m
         elif fd:
             for b in fd:
+                b = int(b) % self.nb  # a negative block index counts from the end
                 for i in range(self.off[b], self.off[b + 1]):
                     for j in range(self.off[b], self.off[b + 1]):
                         if self.classes[i] != self.classes[j]:
